@@ -9,9 +9,12 @@ def run(tier):
     c = vlib.Check("C20", tier)
     exe = vlib.build(["drv_mathvec"])["drv_mathvec"]
     c.mc("MathVec", "MC_MathVec", workers=8, timeout=900)
-    traces = c.drive(exe, [["@OUT", tier, vlib.SEED]], tag="math")
-    c.traces = 1
-    lines = open(traces[0]).read().splitlines()
+    traces = c.drive(exe, [["@OUT", tier, sd] for sd in vlib.seeds(tier, 6)], tag="math")
+    c.traces = len(traces)
+    lines = []
+    for t in traces:
+        ls = open(t).read().splitlines()
+        lines += ls if not lines else ls[1:]
     nsh = 8 if tier == "quick" else 16
     shards = []
     for i in range(nsh):
